@@ -531,6 +531,12 @@ fn parent_or_root(id: &str) -> String {
 }
 
 pub fn random_tree(r: &mut Rng, ids: &[String]) -> Tree {
+    random_tree_ex(r, ids, false)
+}
+
+/// `inserts`: compounds may also call `get_or_insert`, on other keys and on their own key
+/// (the entry then exists already when the load that created it comes to store its result).
+pub fn random_tree_ex(r: &mut Rng, ids: &[String], inserts: bool) -> Tree {
     let mem = Mem::new("gen", Hot::No);
     for (n, id) in ids.iter().enumerate() {
         // leaves
@@ -559,6 +565,16 @@ pub fn random_tree(r: &mut Rng, ids: &[String]) -> Tree {
                 // a compound may load the *leaf* of its own id
                 if r.chance(1, 2) {
                     ops.insert(0, Op::Load { ty: LEAF_A, id: id.clone() });
+                }
+                if inserts && r.chance(1, 4) {
+                    let own = if ext == "n0" { Ty::Node(0) } else { Ty::Node(1) };
+                    let op = match r.below(4) {
+                        0 | 1 => Op::Insert { ty: own, id: id.clone(), n: r.below(1000) as u64 },
+                        2 => Op::Insert { ty: LEAF_A, id: r.pick(ids).clone(), n: r.below(1000) as u64 },
+                        _ => Op::Insert { ty: Ty::Stored(0), id: r.pick(ids).clone(), n: r.below(1000) as u64 },
+                    };
+                    let at = r.below(ops.len() + 1);
+                    ops.insert(at, op);
                 }
                 // nodes never load nodes of the same or an earlier index => acyclic
                 mem.write(id, ext, render_recipe(&ops).as_bytes());
@@ -679,7 +695,12 @@ pub fn run(args: &Args) -> Report {
     let alphabet_big: Vec<Key> = vec![];
     for h in 0..nrand {
         rep.eval();
-        let tree = random_tree(&mut rng, &ids);
+        // every third tree: compounds that call get_or_insert while they are being loaded
+        let with_inserts = h % 3 == 2;
+        let tree = random_tree_ex(&mut rng, &ids, with_inserts);
+        if with_inserts {
+            rep.count("histories_with_get_or_insert_inside_loads", 1);
+        }
         let len = if miri { 8 } else { 40 };
         let ops: Vec<Api> = (0..len).map(|_| random_api(&mut rng, &ids)).collect();
         let front = FRONTS[h % FRONTS.len()];
